@@ -1111,12 +1111,10 @@ def kept_by_spec(case):
     return [c for c in chs if fits(c, case['si'][:2])]
 
 
-def single_channel_stage(case, kept_ids=None):
+def single_channel_stage(case):
     """does some amplifier stage of the path (an Edfa, or one per-band amplifier of a Multiband_amplifier) receive
-    exactly one of the kept channels?  (Edfa.interpol_params indexes channel_freq[1]: known finding)"""
+    exactly one of the kept channels?  (regression dimension: Edfa.interpol_params used to index channel_freq[1])"""
     kept = kept_by_spec(case)
-    if kept_ids is not None:
-        kept = [c for c in case['chs'] if c['id'] in set(kept_ids)]
     for d in case['path']:
         stages = [d['bands'][0]] if d['t'] == 'E' else [s['bands'][0] for s in d['subs']] if d['t'] == 'M' else []
         for b in stages:
@@ -1126,10 +1124,20 @@ def single_channel_stage(case, kept_ids=None):
 
 
 def net_case(rng, eq, req, path, label):
-    for _ in range(12):
-        case = net_case1(rng, eq, req, path, label)
-        if not single_channel_stage(case) or rng.random() < 0.04:
-            break
+    case = net_case1(rng, eq, req, path, label)
+    if rng.random() < 0.12 and 'grid' not in case:
+        # deliberately leave exactly one channel in one amplifier band
+        kept = kept_by_spec(case)
+        stages = [d['bands'][0] for d in case['path'] if d['t'] == 'E'] + \
+                 [s['bands'][0] for d in case['path'] if d['t'] == 'M' for s in d['subs']]
+        if kept and stages:
+            b = rng.choice(stages)
+            inside = [c for c in kept if fits(c, b)]
+            if len(inside) > 1:
+                keep = rng.choice(inside)
+                drop = {c['id'] for c in inside if c is not keep}
+                case['chs'] = [c for c in case['chs'] if c['id'] not in drop]
+                case['perm'] = rng.sample(range(len(case['chs'])), len(case['chs']))
     return case
 
 
@@ -1171,18 +1179,6 @@ def strip_np(obs):
 
 
 # ------------------------------------------------------------------ run
-SINGLE_MSG = 'IndexError: index 1 is out of bounds for axis 0 with size 1'
-
-
-def match_single_channel(v):
-    """open finding: an Edfa (or one per-band amplifier of a Multiband_amplifier) that is handed exactly one channel
-    raises IndexError in interpol_params (channel_freq[1])"""
-    return (v.get('key') == 'propagate_raises' and SINGLE_MSG in v.get('description', '')
-            and v.get('single_channel_stage') is True)
-
-
-MATCHERS = {'C07-single-channel-amplifier': match_single_channel}
-
 KINDS = ['mk', 'demux', 'mux', 'fcr', 'filter', 'elem', 'fpath']
 CORR = {'mk': 'corr:Channels.mk_si', 'demux': 'corr:Channels.demux', 'mux': 'corr:Channels.mux',
         'fcr': 'corr:Channels.find_common_range', 'filter': 'corr:Channels.filter_si',
@@ -1345,12 +1341,12 @@ def run(ctx):
         if obs['exc']:
             ctx.count('net_outcome_' + obs['exc'])
         ctx.case(pub, bool(obs['filter']) and 0 < len(obs['filter'][1]) < len(c['chs']) or bool(obs['exc']))
-        crash1 = (obs['exc'] == 'E:IndexError' and SINGLE_MSG in obs.get('exc_msg', '') and obs['filter'] is not None
-                  and single_channel_stage(c, obs['filter'][1]))
+        if single_channel_stage(c):
+            ctx.count('net_single_channel_stage')
         for key, desc in oracle_net(c, obs, obs2):
-            ctx.violation(key, desc, pub, impl=strip_np(obs), single_channel_stage=crash1)
+            ctx.violation(key, desc, pub, impl=strip_np(obs))
         terms.append(coq_term(c))
-        meta.append((dict(pub, _prefix_only=crash1), impl_line_net(c['path'], obs)))
+        meta.append((pub, impl_line_net(c['path'], obs)))
     if dbg:
         print(f'[t] network-level drive {_t.time() - t0:.1f}s, {len(terms)} terms')
         t0 = _t.time()
@@ -1360,12 +1356,6 @@ def run(ctx):
         print(f'[t] coq_eval {_t.time() - t0:.1f}s')
     for (c, impl), model in zip(meta, lines):
         m = canon_hist(canon_model(model))
-        prefix_only = c.pop('_prefix_only', False)
-        if prefix_only:
-            # the implementation stopped in Edfa.interpol_params on a one-channel band (reported by the oracle as the
-            # known finding); what it did before that point must still agree with the model
-            a = impl.split('|')[:-1]
-            impl, m = '|'.join(a), '|'.join(m.split('|')[:len(a)])
         if m != impl:
             a, b = impl.split('|'), m.split('|')
             k = next((i for i in range(min(len(a), len(b))) if a[i] != b[i]), min(len(a), len(b)))
@@ -1381,4 +1371,4 @@ def run(ctx):
         '(rejected in any order)',
         'find_common_range is modelled with default_design_bands=None (the way request.find_elements_common_range calls it)',
     ]
-    return common.finish(ctx, MATCHERS)
+    return common.finish(ctx, {})
